@@ -249,6 +249,31 @@ fn gen_c06(tier: &str, rng: &mut Rng) -> Vec<Case> {
         let id = cases.len();
         cases.push(mk_case(id, 0, cfg, natural + 2 + rng.below(40), html.into_bytes(), Some(0), Meta::G { role: "table", strs, nums: vec![0] }, "wide_span_over_empty"));
     }
+    // a short spanning cell which reaches over trailing columns that are empty in every row, at
+    // widths that squeeze the table: no line may be wider than the width given to the table
+    let nt = if tier == "thorough" { 20000 } else { 1500 };
+    for k in 0..nt {
+        let span = rng.range(2, 4);
+        let lead = rng.range(1, 2);
+        let words = ["foxtrot golf hotel", "alpha bravo", "kilo lima mike november", "tango"];
+        let long = *rng.pick(&words);
+        let short: String = "xyzw".chars().take(rng.range(1, span - 1)).collect();
+        let mut r0 = String::from("<tr>");
+        let mut r1 = String::from("<tr>");
+        for j in 0..lead {
+            r0.push_str(&format!("<td>p{}</td>", j));
+            r1.push_str(&format!("<td>q{}</td>", j));
+        }
+        r0.push_str(&format!("<td colspan=\"{}\">{}</td></tr>", span, short));
+        r1.push_str(&format!("<td>{}</td>{}</tr>", long, "<td></td>".repeat(span - 1)));
+        let html = if rng.chance(1, 2) { format!("<table>{}{}</table>", r0, r1) } else { format!("<table>{}{}</table>", r1, r0) };
+        let natural = 3 * lead + long.len() + span;
+        let w = rng.range(3 * lead + 3, natural + 3);
+        let cfg = Cfg { deco: if rng.chance(1, 2) { 0 } else { 1 }, ..Default::default() };
+        let id = cases.len();
+        let _ = k;
+        cases.push(mk_case(id, 0, cfg, w, html.into_bytes(), Some(0), Meta::G { role: "table_empty", strs: vec![], nums: vec![0] }, "short_span_over_trailing_empty"));
+    }
     // every row tiles the same N columns with spanning cells only (no column has a cell of its
     // own): at narrow widths each column still gets its share
     let ns = if tier == "thorough" { 20000 } else { 1500 };
@@ -523,6 +548,12 @@ fn check_c06(cases: &[Case], results: &[Option<RunResult>]) -> Vec<Violation> {
                     };
                     // (the recorded class of C05 shows here too: a column that got width 0 under a
                     // colspan makes that row one separator wider)
+                    if !c.spec.cfg.overflow && c.spec.cfg.pad == false {
+                        if let Some(l) = lines.iter().find(|l| str_width(l) > c.spec.width) {
+                            v.push(viol(i, "a table line is wider than the width given to the table", format!("width {} line {:?}\n{}", c.spec.width, l, lines.join("\n")), None));
+                            continue;
+                        }
+                    }
                     let known6 = if results[i].as_ref().map(|r| colspan_zero_class(&dom_of(r), c.spec.width)).unwrap_or(false) { Some("zero_width_column_under_colspan") } else { None };
                     let mut col_x: HashMap<usize, (usize, String)> = HashMap::new();
                     'rows: for row in &layout {
@@ -647,7 +678,7 @@ fn check_c06(cases: &[Case], results: &[Option<RunResult>]) -> Vec<Violation> {
                 cidx += span;
             }
         }
-        if g[0].len() > c.spec.width {
+        if g[0].len() > c.spec.width || (!c.spec.cfg.overflow && lines.iter().any(|l| str_width(l) > c.spec.width)) {
             v.push(viol(i, "table wider than the width", String::new(), None));
         }
     }
